@@ -2,6 +2,8 @@
 
 The directory trees of all scenarios are materialised once (`materialise`, by the parent process, under a
 scratch directory it removes); the populator only reads them, so every behaviour and every worker shares them.
+A scenario may hold several trees: each call reads the one its `root` names (a base tree, then an overlay).
+Special files (rule paths that exist and are neither directory nor regular file) are FIFOs made with os.mkfifo.
 Model values: a name is a tuple of dot-separated parts, a path a tuple of names, relative to the tree's root.
 """
 import contextlib
@@ -20,25 +22,28 @@ def path_str(path, sep='/'):
     return sep.join(name_str(n) for n in path)
 
 
-def tree_key(sc):
-    return (sc['files'], sc['dirs'])
+def tree_key(tree):
+    return (tree['files'], tree['dirs'], tree['specials'])
 
 
 def materialise(scenarios, base):
     """Create every distinct tree of `scenarios` under `base`; returns {tree_key: root directory}."""
     roots = {}
     for sc in scenarios:
-        key = tree_key(sc)
-        if key in roots:
-            continue
-        root = os.path.join(base, 't%05d' % len(roots))
-        os.mkdir(root)
-        for d in sorted(sc['dirs'], key=len):
-            os.makedirs(os.path.join(root, path_str(d, os.sep)), exist_ok=True)
-        for f in sc['files']:
-            with open(os.path.join(root, path_str(f, os.sep)), 'w') as fh:
-                fh.write('x')
-        roots[key] = root
+        for tree in sc['trees']:
+            key = tree_key(tree)
+            if key in roots:
+                continue
+            root = os.path.join(base, 't%05d' % len(roots))
+            os.mkdir(root)
+            for d in sorted(tree['dirs'], key=len):
+                os.makedirs(os.path.join(root, path_str(d, os.sep)), exist_ok=True)
+            for f in tree['files']:
+                with open(os.path.join(root, path_str(f, os.sep)), 'w') as fh:
+                    fh.write('x')
+            for f in tree['specials']:
+                os.mkfifo(os.path.join(root, path_str(f, os.sep)))
+            roots[key] = root
     return roots
 
 
@@ -110,10 +115,11 @@ class MapsBetween:
 def candidate_keys(sc):
     """Every key a file of the tree could be stored under (as is / extension dropped)."""
     ks = set()
-    for p in sc['files']:
-        ks.add(p)
-        if len(p[-1]) > 1:
-            ks.add(p[:-1] + (p[-1][:-1],))
+    for tree in sc['trees']:
+        for p in tree['files']:
+            ks.add(p)
+            if len(p[-1]) > 1:
+                ks.add(p[:-1] + (p[-1][:-1],))
     return ks
 
 
@@ -137,20 +143,27 @@ class PopulatorAdapter:
     # ------------------------------------------------------------------------------------------
     def reset(self, init):
         sc = self.sc = init['sc']
-        self.root = self.roots[tree_key(sc)]
         self.variant = zlib.crc32(to_tla(sc).encode())       # stable choice of how the root is passed
         self.counter += 1                                    # a scenario is replayed more than once: vary the listing
         self.order = ('fs', 'asc', 'desc')[(self.variant // 2 + self.counter) % 3]
         self.map = self.desper.ResourceMap()
-        # the root may come from the constructor or from the call: alternate, the other one is a decoy
+        # the root may come from the constructor or from the call: alternate, the other one is a decoy (a call
+        # that reads another tree than the constructor's names its root in any case)
         # ... and the same directory may be spelled with a trailing separator or a redundant './' (every third replay)
-        self.spelled = (self.root, self.root + os.sep, os.path.join(self.root, '.') + os.sep)[(self.variant // 7 + self.counter) % 3]
-        ctor_root = self.spelled if self.variant & 1 else os.path.join(self.root, 'no-such-root')
+        self.spelling = (self.variant // 7 + self.counter) % 3
+        self.ctor_tree = sc['calls'][0]['root'] if self.variant & 1 and sc['calls'] else None
+        self.root = self.roots[tree_key(sc['trees'][0])]
+        ctor_root = self.spelled(self.ctor_tree) if self.ctor_tree else os.path.join(self.root, 'no-such-root')
+        self.all_dirs = frozenset().union(*(t['dirs'] for t in sc['trees']))
         self.pop = self.desper.DirectoryResourcePopulator(ctor_root, nest_on_conflict=sc['cn'],
                                                           trim_extensions=sc['ct'])
         self.n_rules = 0
         self.call = 0
         self.log = []
+
+    def spelled(self, tree_no):
+        root = self.roots[tree_key(self.sc['trees'][tree_no - 1])]
+        return (root, root + os.sep, os.path.join(root, '.') + os.sep)[self.spelling]
 
     def _model_path(self, filename):
         rel = os.path.normpath(os.path.relpath(filename, self.root))
@@ -191,6 +204,7 @@ class PopulatorAdapter:
         sc = self.sc
         c = self.call = args[0]
         call = sc['calls'][c - 1]
+        self.root = self.roots[tree_key(sc['trees'][call['root'] - 1])]        # _model_path: relative to this call's root
         for rule in call['add']:
             self.n_rules += 1
             a, kw = ARGS[rule['args']]
@@ -204,8 +218,8 @@ class PopulatorAdapter:
             opts['nest_on_conflict'] = call['n'] == 'T'
         if call['t'] != 'N':
             opts['trim_extensions'] = call['t'] == 'T'
-        if not self.variant & 1:
-            opts['root'] = self.spelled
+        if call['root'] != self.ctor_tree:
+            opts['root'] = self.spelled(call['root'])
         with listing_order(self.order):
             _v, ex = guarded(lambda: self.pop(self.map, **opts))
         cols, maps, raw = {}, set(), {}
@@ -230,7 +244,7 @@ class PopulatorAdapter:
             'columns': {k: tuple(v) for k, v in cols.items()},
             'get': get,
             'maps': frozenset(maps),
-            'maps_by_get': frozenset(d for d in sc['dirs']
+            'maps_by_get': frozenset(d for d in self.all_dirs
                                      if isinstance(self.map.get(path_str(d)), self.desper.ResourceMap)) | {()},
             'made': tuple(sorted(self.log)),
         }
@@ -242,7 +256,9 @@ class PopulatorAdapter:
         return {
             'exc': post['exc'],
             'columns': cols,
-            'get': {k: (cols[k][0], cols[k][0]) if k in cols else (None, None) for k in self._get_keys | set(cols)},
+            # a key resolves to its visible handle, to the sub-map if it is a directory that became one, or to nothing
+            'get': {k: (cols[k][0], cols[k][0]) if k in cols else ('MAP', 'MAP') if k in post['maps'] else (None, None)
+                    for k in self._get_keys | set(cols)},
             'maps': between,
             'maps_by_get': between,
             'made': tuple(sorted((m['r'], m['p'], m['f'], m['a']) for m in post['made'])),
